@@ -16,7 +16,7 @@ import shutil
 import tempfile
 
 from report import AnalysisError
-from cfront import TU, CCFG, kids, kind, strip, walk, array_extent
+from cfront import TU, CCFG, kids, kind, strip, walk, array_extent, sizeof_operand_type
 import exprnf as X
 
 EXPLANATION = (
@@ -44,6 +44,8 @@ ASSUMPTIONS = [
     "scheduler functions are not re-entered concurrently (no interrupt interleaving is modelled); callbacks "
     "that schedule into the running frame are outside the decided clauses",
     "struct l1s (the single scheduler instance) is zero-initialised by the C runtime",
+    "callbacks run by tdma_sched_execute do not advance the ring (tdma_sched_advance is called by the frame "
+    "interrupt between executions), so sched->cur_bucket names the same bucket before and after the callbacks",
 ]
 
 FW = "src/target/firmware"
@@ -123,6 +125,11 @@ def subterms(t):
 
 def contains(t, sub):
     return any(x == sub for x in subterms(t))
+
+
+def unver(t):
+    """The term with memory versions erased (same lvalue, any time)."""
+    return rebuild(t, lambda x: ("ld", unver(x[1]), None) if x[0] == "ld" else None)
 
 
 def padd(p, i):
@@ -572,7 +579,6 @@ class Fn:
             v = self.tu.fold(n)
             if v is not None:
                 return X.C(v)
-            from cfront import sizeof_operand_type
             return ("sizeof", strip_const(sizeof_operand_type(n)))
         if k == "DeclRefExpr":
             rd = n.get("referencedDecl", {})
@@ -673,8 +679,6 @@ class Fn:
     def pointee(self, a):
         c = strip(a, casts=True)
         qt = c.get("type", {}).get("qualType", "")
-        if kind(c) == "ImplicitCastExpr" or qt.endswith("]"):
-            pass
         return strip_const(qt[:-1]) if qt.rstrip().endswith("*") else strip_const(qt.split("[")[0])
 
     def call(self, n):
@@ -1057,6 +1061,8 @@ def r1_capacity(a):
             guard_edges = {}
             for s in sts:
                 ub, edges = fn.upper_bound(s["node"], I)
+                if ub is None and any(at[0] == "==" and I in (at[1], at[2]) for at in fn.guard_atoms(s["node"])):
+                    raise AnalysisError("%s(): capacity test on num_items by (in)equality only -- unclassifiable" % name)
                 for (c, l) in edges:
                     guard_edges[(c.id, l)] = (c, l)
                 a.ob(R, name, "%s(): %s is dominated by the capacity check num_items < ARRAY_SIZE(item) on the same "
@@ -1296,6 +1302,8 @@ def r3_single(a):
     for i, f in enumerate(("cb", "p1", "p2", "p3", "prio")):
         want = ("p", i + 1, fn.params[i + 1].get("name"))
         got = fields.get(f)
+        if got is not None and got[0] == "ld" and lv_path(got[1])[0][0] == "loc":
+            raise AnalysisError("tdma_schedule(): item assembled in a local aggregate -- unclassifiable")
         a.ob(R, name, "tdma_schedule stores the caller's argument #%d into item field %s" % (i + 2, f),
              show(want), show(got) if got is not None else "not stored", got == want, sts[0]["node"])
 
@@ -1480,7 +1488,7 @@ def r4_execute(a):
             a.ob(R, name, "the callback of an item is invoked with that item's own %s" % f,
                  show(("fld", IT, f)), show(arg), good, ic["node"])
         a.ob(R, name, "the executed items are those of the current frame's bucket",
-             show(Bcur), show(B), B == Bcur, ic["node"])
+             show(Bcur), show(B), unver(B) == unver(Bcur), ic["node"])
         # position: seq[i], i = 0 .. num_items-1
         if not (J[0] == "ld" and J[1][0] == "idx" and J[1][1][0] == "loc"):
             raise AnalysisError("tdma_sched_execute(): executed slot %s is not taken from a local order sequence -- unclassifiable" % show(J))
@@ -1514,9 +1522,10 @@ def r4_execute(a):
     cnodes = {ic["node"].id for ic in fn.icalls}
     enodes = set()
     for s in fn.stores:
-        if s["grp"] == "num_items" and s["how"] == "assign" and s["val"] == C0 and s["lv"] == ("fld", Bcur, "num_items"):
+        if s["grp"] == "num_items" and s["how"] == "assign" and s["val"] == C0 and \
+                unver(s["lv"]) == unver(("fld", Bcur, "num_items")):
             enodes.add(s["node"].id)
-        if s["grp"] == "ALL" and is_zero_fill(s) and s["lv"] == Bcur:
+        if s["grp"] == "ALL" and is_zero_fill(s) and unver(s["lv"]) == unver(Bcur):
             enodes.add(s["node"].id)
     clean_in = {n.id: True for n in g.nodes}
     clean_out = dict(clean_in)
@@ -1778,10 +1787,16 @@ def who_may_write(a, tier):
 
 def run(L, tier):
     a = A(L)
-    r1_capacity(a)
-    r2_ring(a)
-    who_may_write(a, tier)
-    r3_single(a)
-    r3_set(a)
-    r4_execute(a)
-    r5_sort(a)
+    a.sort = None
+    errors = []
+    for rule in (r1_capacity, r2_ring, lambda x: who_may_write(x, tier), r3_single, r3_set, r4_execute, r5_sort):
+        try:
+            rule(a)
+        except AnalysisError as e:
+            errors.append(str(e))
+    if errors:
+        # a recognised violation stands even when another rule cannot classify the
+        # (same, edited) construct; without one there is no verdict
+        if all(o.ok for o in L.obs):
+            raise AnalysisError("; ".join(errors))
+        L.extra["unclassified"] = errors
